@@ -24,6 +24,10 @@ def shape(nodes):
             out.append(["for", n.var_name, str(n.count), shape(n.body)])
         elif k == "BreakStmt":
             out.append(["break"])
+        elif k == "ContinueStmt":
+            out.append(["continue"])
+        elif k == "ReturnStmt" and n.expr is None:
+            out.append(["return"])
         elif k == "SerialWrite":
             out.append(["write", str(n.value)])
         elif k == "Sleep":
